@@ -249,6 +249,18 @@ def rule_asc(ctx):
     fld = ch[0] if ch else None
     stores = [s for s in util.self_field_stores(b) if s[1] == [fld]]
     ins = [s for s in stores if s[0] in lb]
+    # the cursor may also be advanced by a method of the same object that the loop calls with the loop's height
+    # (e.g. at the end of the delivery wrapper): count such a store at its call site, in the loop's terms
+    for cs in b.calls:
+        if cs.bb not in lb or not cs.local or not cs.args or canon(b.op_expr(cs.args[0])) != 'self':
+            continue
+        for t in prog.targets(cs):
+            if t.impl_self != b.impl_self or t.loops():
+                continue
+            for bb2, ch2, val2, st2 in util.self_field_stores(t):
+                if ch2 == [fld]:
+                    mapping = {i + 1: b.op_expr(a) for i, a in enumerate(cs.args)}
+                    ins.append((cs.bb, ch2, mir.subst(val2, mapping), st2))
     good = []
     for s in ins:
         base, k, sat = util.affine(s[2])
@@ -261,6 +273,10 @@ def rule_asc(ctx):
         # the store lies on every path from a successful delivery to the back edge
         for cs in hits:
             tgt = cs.target
+            if sb == cs.bb:
+                # the delivering call itself advances the cursor (the store sits in the wrapper it calls)
+                ctx.ok('asc', 'store-on-every-iteration-path', cs.where(), 'the cursor is advanced inside the delivering call')
+                continue
             reach_wo = b.reach_from(tgt, avoid=[sb]) & lb
             ctx.check('asc', 'store-on-every-iteration-path', not (set(back) & reach_wo), cs,
                       'back edge unreachable from on_block without passing the cur_height update')
@@ -407,10 +423,26 @@ def rule_trim(ctx):
             if v[1]:
                 true_paths.append(rels)
         else:
-            true_paths.append(rels + util.expand_rel(util.norm_rel(v, True)))
+            # a range built outside the closure and captured (`let keep = lo..=hi; retain(|h, _| keep.contains(h))`):
+            # express the returned test in the creator's frame before expanding the membership test
+            v2 = mir.subst(v, {1: clo})
+            ex = util.expand_rel(util.norm_rel(v2, True))
+            if len(ex) > 1:
+                ex = [(r[0], ('creator', r[1]) if not mir.contains(r[1], lambda x: x[0] == 'param' and x[1] == cbody.path) else r[1],
+                       ('creator', r[2]) if not mir.contains(r[2], lambda x: x[0] == 'param' and x[1] == cbody.path) else r[2]) for r in ex]
+                true_paths.append(rels + ex)
+            else:
+                true_paths.append(rels + util.expand_rel(util.norm_rel(v, True)))
 
     def resolve(e):
         """map closure-relative expressions to the creator's: upvar fields and the key parameter"""
+        if isinstance(e, tuple) and e and e[0] == 'creator':
+            x = peel(e[1], calls=False)
+            if x[0] == 'call' and x[1].endswith('saturating_sub'):
+                return ('call', x[1], tuple(resolve(('creator', a)) for a in x[2]))
+            if x[0] == 'int':
+                return x
+            return ('upvar', peel(x))
         e = peel(e, calls=False)
         root, ch = field_chain(e)
         if root[0] == 'param' and root[2] == 1 and ch and ch[0] in upv:
